@@ -106,10 +106,29 @@ def run(prog, chk):
     chk.ob('R19.1', lm, push[0].ln, all(g.must_follow(p, pop) for p in push), 'stack push is popped on every normal path', key='push-pop')
     # e. each recursive load is followed by the package comparison (mismatch throws)
     pk_conds = [n for n in g.nodes if n.kind == 'cond' and any(x['k'] == 'member' and x['name'] == 'packageParts' for x in SX.walk(n.e)) and SX.cmp_parts(n.e)]
+    # … the comparison may live in a local closure or a helper function that performs it on every path (`requirePackage(imp, target)`)
+    from ..kcanon import Canon
+    canon = Canon(prog, lm)
+    helper_checks = []
+    for cn in g.calls():
+        c = canon.closure(cn.e)
+        targets = [c[0]] if c else [t for t in (prog.resolve(cn.e) if cn.e.get('k') in ('call', 'mcall') else []) if t.body and t.file == lm.file and t is not lm]
+        for hf in targets:
+            gh = prog.cfg(hf)
+            inner = [n for n in gh.nodes if n.kind == 'cond' and any(x['k'] == 'member' and x['name'] == 'packageParts' for x in SX.walk(n.e)) and SX.cmp_parts(n.e)]
+            if inner and gh.must_follow(gh.entry, inner):
+                helper_checks.append(cn)
+                for c2 in inner:
+                    cp = SX.cmp_parts(c2.e)
+                    mis = c2.succ[0] if cp[0] == '!=' else c2.succ[1]
+                    r = gh.reachable([mis])
+                    chk.ob('R19.1', hf, c2.ln or hf.ln, gh.exit.id not in r and any(gh.nodes[i_].kind == 'throw' for i_ in r), 'a package mismatch can only throw',
+                           key='package-mismatch-throws:helper')
+    pk_conds = pk_conds + helper_checks
     for i, rc in enumerate(rec_calls):
         ok = bool(pk_conds) and g.must_follow(rc, pk_conds)
         chk.ob('R19.1', lm, rc.ln, ok, 'every imported module\'s declared package is compared with the import before loading continues', key='package-check#%d' % i)
-    for c in pk_conds:
+    for c in [c for c in pk_conds if c.kind == 'cond']:
         cp = SX.cmp_parts(c.e)
         mis = c.succ[0] if cp[0] == '!=' else c.succ[1]
         r = g.reachable([mis], avoid=[n for n in g.nodes if n.kind == 'loophead'])
